@@ -366,3 +366,39 @@ Proof.
   repeat split; try reflexivity. intros p x. exists (filter p (seq 0 n)). split; [reflexivity|].
   rewrite filter_In, in_seq. intuition lia.
 Qed.
+
+(* ------------------------------------------------------------------ the per-name dictionaries *)
+Lemma dedup_in l x : In x (dedup l) <-> In x l.
+Proof.
+  induction l as [|y l IH]; simpl; [reflexivity|]. rewrite filter_In, IH, negb_true_iff, Nat.eqb_neq.
+  destruct (Nat.eq_dec x y) as [->|Hne]; [tauto|]. split.
+  - intros [H|[H _]]; [left; now symmetry | now right].
+  - intros [H|H]; [left; exact H | right; split; [exact H | exact Hne]].
+Qed.
+
+Lemma dedup_NoDup l : NoDup (dedup l).
+Proof.
+  induction l as [|y l IH]; simpl; constructor.
+  - rewrite filter_In, negb_true_iff, Nat.eqb_neq. tauto.
+  - now apply NoDup_filter.
+Qed.
+
+(* the keys are exactly the names of the selected rows (each once); the value of a key is made of exactly the DOFs of the selected
+   entities in the selected rows THAT CARRY THAT NAME *)
+Theorem by_name_spec blk rows ix off dofnames :
+  let nm := fun r => nth (r + off) dofnames 0 in
+  NoDup (map fst (by_name blk rows ix off dofnames)) /\
+  (forall n, In n (map fst (by_name blk rows ix off dofnames)) <-> exists r, In r rows /\ nm r = n) /\
+  (forall n l, In (n, l) (by_name blk rows ix off dofnames) ->
+     forall d, In d l <-> exists r j, In r rows /\ nm r = n /\ In j ix /\ d = nth j (nth r blk []) 0).
+Proof.
+  intros nm. unfold by_name. fold nm. rewrite map_map. simpl. rewrite map_id. split; [apply dedup_NoDup|]. split.
+  - intros n. rewrite dedup_in, in_map_iff. split; intros [r [H1 H2]]; exists r; tauto.
+  - intros n l Hin d. apply in_map_iff in Hin. destruct Hin as [n' [Heq _]]. inversion Heq; subst n' l. clear Heq.
+    rewrite in_flat_map. split.
+    + intros [r [Hr Hd]]. cbv beta delta [nm] in Hd |- *. revert Hd.
+      destruct (Nat.eqb_spec (nth (r + off) dofnames 0) n) as [E|E]; intros Hd; [|destruct Hd].
+      apply in_map_iff in Hd. destruct Hd as [j [Hd Hj]]. exists r, j. now repeat split.
+    + intros [r [j [Hr [E [Hj Hd]]]]]. exists r. split; [exact Hr|]. cbv beta delta [nm] in E |- *. rewrite (proj2 (Nat.eqb_eq _ _) E).
+      apply in_map_iff. exists j. now split.
+Qed.
